@@ -47,7 +47,12 @@ func (s *S) must(ok bool, what string) bool {
 
 func newS(c *vh.Ctx, name string, o genx.Options, onGen func(p *genx.Peer)) *S {
 	if s1() {
-		o.Secs1, o.Retry, o.T2 = true, 1, 30*time.Millisecond
+		o.Secs1, o.Retry = true, 1
+		if o.T2 == 0 {
+			// scripted scenarios: a line timer far above the scripted peer's worst scheduling delay,
+			// so that the library does not end a generation on its own (random histories use 30 ms)
+			o.T2 = 150 * time.Millisecond
+		}
 		name = "s1-" + name
 	}
 	e, err := genx.NewEnv(o)
@@ -65,7 +70,7 @@ func (s *S) finish() {
 	// injection (those are the scenarios' job)
 	e.WaitSettled(500 * time.Millisecond)
 	done := make(chan struct{})
-	go func() { _ = e.Conn.Close(); close(done) }()
+	go func() { _ = e.Close(); close(done) }()
 	select {
 	case <-done:
 	case <-time.After(e.CloseTimeout + slack):
@@ -153,7 +158,7 @@ func (s *S) inject(k cause, g int) {
 	case cPeerClose:
 		p.Close()
 	case cClose:
-		_ = s.e.Conn.Close()
+		_ = s.e.Close()
 		go func() { _ = s.e.Open(5 * time.Second) }()
 	case cLinktest:
 		p.NoLinktest.Store(true)
@@ -346,6 +351,7 @@ func t7(c *vh.Ctx) {
 func random(c *vh.Ctx, r *rand.Rand, idx int) {
 	o := genx.DefaultOptions()
 	o.T3 = time.Duration(20+r.Intn(40)) * time.Millisecond
+	o.T2 = 30 * time.Millisecond
 	nGen := 2 + r.Intn(3)
 	mode := make([]int, nGen+8)
 	for i := range mode {
@@ -443,7 +449,7 @@ func modelEq(c *vh.Ctx) {
 			c.Case(line, line, true)
 		}
 		s.e.OracleC09(s.fail, "")
-		_ = s.e.Conn.Close()
+		_ = s.e.Close()
 	}
 	// 2: a W-bit send parked in writeFrame across a peer close and the reconnect
 	{
@@ -470,7 +476,7 @@ func modelEq(c *vh.Ctx) {
 			c.Case(line, line, true)
 		}
 		s.e.OracleC09(s.fail, "")
-		_ = s.e.Conn.Close()
+		_ = s.e.Close()
 	}
 }
 
